@@ -288,6 +288,7 @@ class GeoMachine(Machine):
         self.layers_fresh = True
         self.index_fresh = True
         self.persist_pre_ok = True
+        self.tie_taint = False
 
     # ------------------------------------------------------------------ helpers
     def call(self, fn, what):
@@ -399,7 +400,20 @@ class GeoMachine(Machine):
         ctx.state_changes += 1
         ctx.fp.append((kind, done if isinstance(done, (str, int, tuple)) else 0))
         geo = self.geo
-        check_core(geo, self.layers_fresh)
+        # A surface within rounding distance of a layer boundary without sitting on it (layer
+        # bottoms recomputed by repeated subtraction in refine_layers, then translated) makes the
+        # layer count and the block lists depend on sub-ulp rounding: such a state is outside
+        # what "a layer count matching its surface" can mean; the checks that count layers are
+        # not evaluated on it.
+        near_tie = any(0.0 < abs(c.surface - l.bottom) < 1e-7 * max(1.0, abs(l.bottom))
+                       for c in geo.columnlist if c.surface is not None for l in geo.layerlist)
+        if kind in ('INIT', 'XINIT'):
+            self.tie_taint = False
+        if near_tie:
+            ctx.probes['surface_within_rounding_of_layer_boundary'] += 1
+            self.tie_taint = True     # counts made in this state stay around until a new geometry
+        near_tie = near_tie or self.tie_taint
+        check_core(geo, self.layers_fresh and not near_tie)
         if kind == 'SET_OPTION' and done[0] == 'order':
             pass      # recomputes the block name list only; the connection list is untouched
         elif kind in REFRESHING:
@@ -410,7 +424,7 @@ class GeoMachine(Machine):
                 self.index_fresh = False
         elif kind not in NEUTRAL:
             self.index_fresh = False
-        if self.index_fresh and self.layers_fresh:
+        if self.index_fresh and self.layers_fresh and not near_tie:
             self.check_names(kind)
         if high or kind in ('INIT', 'XINIT'):
             establishes = kind in ('REDUCE', 'XREDUCE', 'CHECK_FIX', 'INIT', 'XINIT', 'PERSIST')
